@@ -279,6 +279,8 @@ def run_check(prop, mod, tier, seed, st, known, t0):
         for i in idx:
             c = cases[i]
             samples.append({"case": c["sx"][:1500], "verdict": [c.get("kind")] + list(c.get("fields", []))[:2], "meta": c.get("meta")})
+    for x in (extra_info.get("samples") or [])[:10]:
+        samples.append(x)
     for t in ob["theorems"][:40]:
         samples.append({"obligation": t})
     cov = {
